@@ -84,11 +84,11 @@ def main():
             rows.append(m)
     # matrix
     lines = ["# Seeded changes and which checks catch them", "",
-             "`base` = the checks as they were when the change was delivered (own check, quick tier only); `final` = the checks as committed (all 20 quick checks unless noted).",
+             "`base` = the checks as they were when the change was delivered (own check, quick tier only); `final` = the checks as committed: the property's own quick check and every other quick check that an earlier full pass (all twenty checks, `eval-final2/3.json` in each seed's meta) reported as catching the change, re-run at the final commit (`eval-final4.json`); round-6 changes: all twenty.",
              "", "| seeded change | breaks | what it is | base: own check | final: caught by |", "|---|---|---|---|---|"]
     for m in sorted(rows, key=lambda x: x["id"]):
         base = m["runs"].get("eval-base.json")
-        final = m["runs"].get("eval-final3.json") or m["runs"].get("eval-final2.json") or m["runs"].get("eval-final.json") or m["runs"].get("eval.json") or m["runs"].get("eval-new.json")
+        final = m["runs"].get("eval-final4.json") or m["runs"].get("eval-final3.json") or m["runs"].get("eval-final2.json") or m["runs"].get("eval-final.json") or m["runs"].get("eval.json") or m["runs"].get("eval-new.json")
         own = m["breaks_property"] + "/quick"
         b = "-" if not base else ("caught" if own in (base.get("caught_by") or []) else "missed")
         f = "-" if not final else (", ".join(c.replace("/quick", "").replace("/thorough", " (thorough)") for c in (final.get("caught_by") or [])) or "**none**")
